@@ -39,6 +39,14 @@ pub fn build_ex_pair(
     Ok((user_a, user_b))
 }
 
+#[cfg(gm_rs_verif)]
+impl Exchange {
+    /// Verification accessor for the derived key (crate-private field).
+    pub fn verif_shared_key(&self) -> Option<&[u8]> {
+        self.k.as_deref()
+    }
+}
+
 impl Exchange {
     pub fn new(
         klen: usize,
